@@ -250,6 +250,22 @@ def run(F, tier, res):
             else:
                 res.violate('ORDER', 'fn=%s' % p, 'the plain-text grep regexes are tried in the order %s, documented (most specific first): %s' % (order, VARIANT_ORDER), where=F.bodies[p]['mir']['span']['at'])
     res.rule('C16.ORDER', no, 1, 'array of plain-text grep regexes in parse_grep_line (statics -> variants: %s)' % static_variant, discharged=oko)
+    # ---------- STATELESS: a grep line is parsed on its own - which regex is tried first must not depend on what earlier lines matched. The
+    # reader (and its closures) may not read or write thread-locals, cells or atomics (the calling-process query is the one exception: it is
+    # fixed for the whole run, C20)
+    nsl = oksl = 0
+    for p in pgl:
+        fam = [p] + [q for q in F.fn_bodies if q.startswith(p + '::{closure')]
+        for q in fam:
+            for i, c in F.calls(q):
+                r = callee_of(c)
+                nsl += 1
+                if ('LocalKey' in r or 'cell::Cell' in r or 'cell::RefCell' in r or 'sync::atomic' in r or 'Atomic::<' in r) and 'calling_process' not in r:
+                    res.violate('STATELESS', 'fn=%s;callee=%s' % (q, r.split('::')[-1]), 'the grep line reader consults mutable state kept between lines (%s): the regex tried first, and '
+                                'with it the way an ambiguous line is split into path / line number / code, depends on the lines before it' % r, where=F.span_of_call(c))
+                else:
+                    oksl += 1
+    res.rule('C16.STATELESS', nsl, 1, 'calls in the plain-text grep line reader and its closures: none touches a thread-local / cell / atomic', discharged=oksl)
     # ---------- XMODE: in a verbose-mode ((?x)) regex whitespace is ignored - also inside a character class in the regex crate's
     # syntax - so a blank that is meant literally must be escaped; an unescaped blank inside [...] silently drops out of the class
     nx = okx = 0
